@@ -2309,7 +2309,7 @@ def _match_mul_sigmoid_silu_inputs(
 ) -> tuple[ir.Value, ir.Node] | None:
     for sigmoid_output, passthrough in ((lhs, rhs), (rhs, lhs)):
         sigmoid_node = _producer_node(nodes, sigmoid_output)
-        if sigmoid_node is None or sigmoid_node.op_type != "Sigmoid":
+        if sigmoid_node is None or not _is_standard_onnx_node(sigmoid_node, "Sigmoid"):
             continue
         sigmoid_inputs = _node_inputs(sigmoid_node)
         if len(sigmoid_inputs) != 1:
@@ -2344,7 +2344,7 @@ def rewrite_mul_sigmoid_as_swish_ir(graph: ir.Graph) -> None:
         changed = False
         nodes = list(graph)
         for node in nodes:
-            if node.op_type != "Mul":
+            if not _is_standard_onnx_node(node, "Mul"):
                 continue
             inputs = _node_inputs(node)
             if len(inputs) != 2:
